@@ -550,6 +550,9 @@ SYM = [
     ('sel', 'IM_sel_single_gamma', 's,nu1,nu2,T1,m12,m21,g', '1-s,nu2,nu1,T1,m21,m12,g', (1, 0)),
     ('sel', 'IM_pre_sel_single_gamma', 'nuPre,TPre,s,nu1,nu2,T1,m12,m21,g', 'nuPre,TPre,1-s,nu2,nu1,T1,m21,m12,g', (1, 0)),
     ('sel', 'bottlegrowth_split_mig_sel_single_gamma', 'nuB,nuF,m,T1+T2,T2,g', 'nuB,nuF,m,T1+T2,T2,g', (1, 0)),
+    # the other branch of the same model (split before the size change: Ts > T)
+    ('sel', 'bottlegrowth_split_mig_sel_single_gamma', 'nuB,nuF,m,T2,T1+T2,g', 'nuB,nuF,m,T2,T1+T2,g', (1, 0)),
+    ('d2', 'bottlegrowth_split_mig', 'nuB,nuF,m,T2,T1+T2', 'nuB,nuF,m,T2,T1+T2', (1, 0)),
     # three populations: simultaneous splits are symmetric under relabelling (m1: 1<->2, m2: 2<->3, m3: 1<->3)
     ('p3', 'sim_split_no_mig', 'nu1,nu2,nu3,T1', 'nu3,nu1,nu2,T1', (2, 0, 1)),
     ('p3', 'sim_split_no_mig', 'nu1,nu2,nu3,T1', 'nu2,nu1,nu3,T1', (1, 0, 2)),
